@@ -55,6 +55,21 @@ class B:  # symbolic boolean: a Coq term of type bool
         self.coq = coq
 
 
+class O:  # an operand object (self.ops[i] / an operand attribute) bound to a local name
+    def __init__(self, index):
+        self.index = index
+
+
+class W:  # a bit width: usable as a number (Coq term of type N) and, formatted into the text, as an integer hole
+    def __init__(self, coq):
+        self.coq = coq
+
+
+class Zv:  # an integer (Coq term of type Z): the value of a constant operand
+    def __init__(self, coq):
+        self.coq = coq
+
+
 def coq_str(s: str) -> str:
     return '"' + s.replace('"', '""') + '"'
 
@@ -109,6 +124,8 @@ class ClsTr:
             return e.slice.value
         if isinstance(e, ast.Attribute) and ast.unparse(e.value) == "self" and e.attr in self.attrs:
             return self.attrs[e.attr]
+        if isinstance(e, ast.Name) and isinstance(self.env_now.get(e.id), O):
+            return self.env_now[e.id].index
         return None
 
     def vtype_of(self, e):
@@ -128,6 +145,32 @@ class ClsTr:
 
     # ---------------------------------------------------------------- expressions (continuation passing: forks on IfExp)
     def eval(self, e, env, k):
+        self.env_now = env
+        if self.op_index(e) is not None and not isinstance(e, ast.Name):
+            return k(O(self.op_index(e)))                                  # `src = self.ops[0]`
+        if isinstance(e, ast.Constant) and isinstance(e.value, int) and not isinstance(e.value, bool):
+            return k(Zv(f"{e.value}%Z"))
+        if isinstance(e, ast.UnaryOp) and isinstance(e.op, ast.Not):
+            return self.eval(e.operand, env, lambda v: k(B(f"(negb {self.as_bool(v, e.operand)})")))
+        if isinstance(e, ast.Call) and isinstance(e.func, ast.Name) and e.func.id == "int" and len(e.args) == 1 and not e.keywords:
+            def ki(v):
+                if not isinstance(v, W):
+                    self.err("int() of something that is not a bit width", e)
+                return k(v)
+            return self.eval(e.args[0], env, ki)
+        if isinstance(e, ast.Compare) and len(e.ops) == 1 and isinstance(e.ops[0], (ast.Gt, ast.GtE, ast.Lt, ast.LtE)):
+            def kc(a):
+                def kc2(b):
+                    self.env_now = env
+                    if isinstance(a, W) and isinstance(b, W):
+                        rel = {ast.Gt: f"(N.ltb {b.coq} {a.coq})", ast.GtE: f"(N.leb {b.coq} {a.coq})", ast.Lt: f"(N.ltb {a.coq} {b.coq})", ast.LtE: f"(N.leb {a.coq} {b.coq})"}
+                    elif isinstance(a, Zv) and isinstance(b, Zv):
+                        rel = {ast.Gt: f"(Z.ltb {b.coq} {a.coq})", ast.GtE: f"(Z.leb {b.coq} {a.coq})", ast.Lt: f"(Z.ltb {a.coq} {b.coq})", ast.LtE: f"(Z.leb {a.coq} {b.coq})"}
+                    else:
+                        self.err("ordering comparison of values of different kinds", e)
+                    return k(B(rel[type(e.ops[0])]))
+                return self.eval(e.comparators[0], env, kc2)
+            return self.eval(e.left, env, kc)
         if isinstance(e, ast.Constant):
             if isinstance(e.value, bool):
                 return k(B("true" if e.value else "false"))
@@ -147,6 +190,8 @@ class ClsTr:
                     return go(i + 1, acc + [v.value])
                 if isinstance(v, ast.FormattedValue) and v.conversion == -1 and v.format_spec is None:
                     def kk(val):
+                        if isinstance(val, W):
+                            return go(i + 1, acc + [("h", f"SInt (Z.of_N {val.coq})")])
                         if not isinstance(val, S):
                             self.err("non-string value formatted into the text", v)
                         return go(i + 1, acc + val.pieces)
@@ -178,16 +223,20 @@ class ClsTr:
             if t and e.attr == "signed":
                 return k(B(f"(vt_sg {t})"))
             if t and e.attr == "bit_width":
-                return k(S([("h", f"SInt (Z.of_N (vt_w {t}))")]))
+                return k(W(f"(vt_w {t})"))
             self.err("attribute", e)
         if isinstance(e, ast.Call):
             if isinstance(e.func, ast.Attribute) and e.func.attr in ("il_read", "effect_var") and not e.args and not e.keywords:
                 i = self.op_index(e.func.value)
                 if i is not None:
                     return k(S([("h", f'SVar "${i}"')]))
+            if isinstance(e.func, ast.Attribute) and e.func.attr == "get_val" and not e.args and not e.keywords and self.op_index(e.func.value) == 0:
+                return k(Zv("v0"))              # the value of the (constant) first operand; only meaningful under isinstance(.., LetVar)
             if isinstance(e.func, ast.Name) and e.func.id == "isinstance" and len(e.args) == 2 and isinstance(e.args[1], ast.Name):
                 i = self.op_index(e.args[0])
-                flag = {"BooleanOp": "ib", "CompareOp": "ic"}.get(e.args[1].id)
+                flag = {"BooleanOp": "ib", "CompareOp": "ic", "LetVar": "il"}.get(e.args[1].id)
+                if flag == "il" and i != 0:
+                    self.err("isinstance(.., LetVar) of an operand other than the first", e)
                 if i is not None and flag:
                     return k(B(f"{flag}{i}"))
             self.err("call", e)
@@ -297,11 +346,12 @@ class ClsTr:
         return f"{pad}if {c} then\n{self.coq_of(a, ind + 2)}\n{pad}else\n{self.coq_of(b, ind + 2)}"
 
     def translate(self) -> tuple[str, dict]:
+        self.env_now = {}
         tree = self.block(self.fn.body, {}, lambda env: ("fall",))
         name = self.cls.lower() + "_text"
         meth = self.method
         txt = (f"(* {self.file} lines {self.fn.lineno}-{self.fn.end_lineno}, sha256 {common.sha(segment(self.src, self.fn))} *)\n"
-               f"Definition {name} (op : string) (tself t0 t1 : vtype) (ib0 ic0 ib1 ic1 : bool) : option sexp :=\n{self.coq_of(tree)}.\n")
+               f"Definition {name} (op : string) (tself t0 t1 : vtype) (ib0 ic0 ib1 ic1 : bool) (il0 : bool) (v0 : Z) : option sexp :=\n{self.coq_of(tree)}.\n")
         if self.enum:
             txt += f"Definition {self.cls.lower()}_ops : list string := [{'; '.join(coq_str(v) for v in self.enum.values())}].\n"
         return txt, {"lines": [self.fn.lineno, self.fn.end_lineno], "sha": common.sha(segment(self.src, self.fn)), "operators": list(self.enum.values())}
